@@ -221,6 +221,29 @@ func (e *env) lifeOps(n *explore.Node) []explore.Op {
 		return nil, nil
 	})
 	add("Build", func(ctx *sdk.Context, g *ghost) ([]member, *explore.Fail) { return e.build(*ctx, g) })
+	// on-chain activation of the latest snapshot on every known chain it is not
+	// live on yet (three or four chains here, so a chains list grows past two entries)
+	if sg := g0.Snaps[fmt.Sprint(g0.MaxID)]; sg != nil {
+		for _, c := range g0.chains() {
+			live := false
+			for _, x := range sg.Chains {
+				if x == c {
+					live = true
+				}
+			}
+			if live {
+				continue
+			}
+			id, c := g0.MaxID, c
+			add(fmt.Sprintf("Activate(%d,%s)", id, c), func(ctx *sdk.Context, g *ghost) ([]member, *explore.Fail) {
+				if err := atomically(*ctx, func(cc sdk.Context) error { return w.App.ValsetKeeper.SetSnapshotOnChain(cc, id, c) }); err != nil {
+					return nil, explore.Failf("harness:activate", "SetSnapshotOnChain(%d,%s): %v", id, c, err)
+				}
+				e.count("n_life_activate")
+				return nil, nil
+			})
+		}
+	}
 	return ops
 }
 
@@ -263,6 +286,16 @@ func (e *env) lifeInit(root sdk.Context, j int, migrated bool) *explore.Node {
 		f = e.observe(ctx, g, want, false)
 	}
 	label := fmt.Sprintf("life(%s,%s,%s)", alphaName[bfsVectors[j][0]], alphaName[bfsVectors[j][1]], alphaName[bfsVectors[j][2]])
+	if f == nil && migrated {
+		// the snapshot built while c1, c2 and old were active goes live on all three, one at a time
+		for _, c := range []string{c1, c2, cOld} {
+			if f != nil {
+				break
+			}
+			must(e.w.App.ValsetKeeper.SetSnapshotOnChain(ctx, g.MaxID, c))
+			f = e.observe(ctx, g, nil, false)
+		}
+	}
 	if f == nil && migrated {
 		label += "+migrated"
 		must(e.govRemoveChain(ctx, cOld))
